@@ -223,6 +223,7 @@ def blocks(tier, seed):
     sc = [(s, n) for s in seeds_ for n in range(2, nmax + 1)]
     rc = [(s, n, r, f) for s in seeds_ for n in range(2, nmax + 1) for r in (False, True)
           for f in ('00', '01')]
+    rc += [('s0', n, r, f) for n in (2, 3) for r in (False, True) for f in ('02', '08', '20', '40', '80', 'a5', 'fe')]
     return [
         Block('setup_consistency', sc, setup_case, 'seeds x chain lengths 2..%d x every hop / party view' % nmax, nshards=len(sc)),
         Block('release_cascade_search', rc, release_case,
